@@ -130,6 +130,28 @@ SEEDS = {
  "C13h": ("C13", "WRKChain fee decorator returns success without next when a fee granter is named", "a forged WRKChain transaction naming any fee granter"),
  "C14g": ("C14", "gov module account left on the bank block-list (delete by module name on a map keyed by address)", "an accepted purchase order of the gov account: BeginBlock panics"),
  "C14h": ("C14", "telemetry gauge narrows the total locked eFUND to int64 in the begin blocker", "total locked above 2^63-1"),
+ "C01i": ("C01", "WRKChain ante max-slot look-ups inside a map range with early return", "same idea as C01d (another author)"),
+ "C01j": ("C01", "purchase-order counter overwritten in place in the slice returned by store.Get", "same idea as C01f (another author)"),
+ "C04i": ("C04", "decrementLockedUnd stores the SafeSub result found via Coins.Find (a zero remainder is 'not found', the record keeps its old value)", "a fee that uses up all of the payer's locked eFUND"),
+ "C04j": ("C04", "minting merged per purchaser through a range copy (merged amounts are lost)", "two orders of one purchaser accepted in the same block"),
+ "C05i": ("C05", "a log-only 'remaining fee' computation writes into the transaction's own fee slice", "locked < fee <= locked + liquid through the real ante chain: the fee collector receives fee - locked"),
+ "C05j": ("C05", "result of Coin.Add discarded when an existing spent tally is updated", "the same payer pays two fees from locked eFUND"),
+ "C08i": ("C08", "BEACON purchase guard msg.Number > max - limit", "same idea as C08b / C16e (another author)"),
+ "C08j": ("C08", "the new record is written in a defer, after pruning has looked for the new lowest height", "an in-state limit of exactly 1 and two records"),
+ "C11i": ("C11", "`stream, ok :=` shadows the refreshed stream in SetNewFlowRate: the pre-claim deposit and last outflow time are written back", "a rate change after time has passed, then any release"),
+ "C11j": ("C11", "expiry test of a top-up compares Unix seconds", "a top-up in the same second as, but before, the deposit-zero time"),
+ "C12i": ("C12", "telemetry gauge narrows the claimed amount to int64", "one release above 2^63-1 base units"),
+ "C12j": ("C12", "claim returns before the store write when the receiver share is zero", "validator fee exactly 1.0 (same idea as C10e / W5b)"),
+ "C15i": ("C15", "BEACON export fills one shared pre-allocated window for every BEACON", "two BEACONs holding timestamps at export time"),
+ "C15j": ("C15", "import cross-check compares the summed locked entries with sdk.Coins{total} (zero coin vs empty coins)", "every locked record is zero (all eFUND spent)"),
+ "C16i": ("C16", "decision time limit converted to time.Duration nanoseconds", "a limit above about 292 years: every open order is rejected as stale"),
+ "C16j": ("C16", "`err :=` shadows the result in validateEntSigners", "any malformed signer entry is accepted"),
+ "C17i": ("C17", "native denomination located on the page with sort.Search without checking the hit", "a page without the native denomination but with one that sorts after it"),
+ "C17j": ("C17", "total locked stored via Coins.Find on the SafeSub result", "the chain-wide total drops to exactly zero"),
+ "C18i": ("C18", "stream key parser strips the store prefix with bytes.TrimLeft", "a receiver address of exactly 17 bytes (0x11)"),
+ "C18j": ("C18", "WRKChain export reverses the record list into its own backing array", "a WRKChain with two or more records at export time"),
+ "C20i": ("C20", "WRKChain list callback returns a hit for entries outside the page before filtering", "same idea as the fourth-round listing change (offset continuation of a filtered list)"),
+ "C20j": ("C20", "status filter switch has no case for ACCEPTED", "list filtered by ACCEPTED in the one block between tally and minting"),
  "C14e": ("C14", "accepted order of a de-whitelisted purchaser set to rejected but left in the accepted queue", "whitelist removal before minting: BeginBlock panics from the next block on"),
  "C14f": ("C14", "decisions admitted on accepted orders + decision handler re-queues the order as raised (two files)", "a second signer decides in the one block between acceptance and minting: BeginBlock panics"),
  "C15e": ("C15", "enterprise InitGenesis adds imported spent records onto existing ones (the module is initialised twice by the app)", "an account with spent eFUND, import through the real InitChain"),
